@@ -277,7 +277,7 @@ impl Property for C09 {
             .boxed()
     }
     fn quota(tier: Tier) -> u64 {
-        tier.pick(300_000, 6_000_000)
+        tier.pick(3_000_000, 60_000_000)
     }
     fn rule() -> String {
         "LineString / MultiLineString / Polygon (with holes) / MultiPolygon built from 1-3 vertex lists of 0-40 vertices: lattice \
